@@ -73,3 +73,120 @@ func init() {
 		assumptions: commonAssumptions,
 	}
 }
+
+var outsideCommon = []string{"zstd and lz4 chunk compression (third-party code; cut)", "string/payload lengths other than the enumerated classes", "more records than the templates contain"}
+
+func init() {
+	checkTable["C01"] = &checkSpec{
+		needEnd: true,
+		jobs: func(tier string) []*Job {
+			var js []*Job
+			add := func(tpl, ln, pn, idv, cfg, skip, cs int) {
+				js = append(js, &Job{Module: "mcap", Harness: "VC01RoundTrip", Params: P("tpl", tpl, "ln", ln, "pn", pn, "idv", idv, "cfg", cfg, "skip", skip, "cs", cs), TimeoutS: 600})
+			}
+			if tier == "quick" {
+				for _, tpl := range []int{1, 5, 6, 7} {
+					for _, cfg := range []int{0, 2, 1, 3, 7, 3 | 8, 3 | 16} {
+						cs := 1000
+						if cfg&1 != 0 && tpl >= 5 {
+							cs = 1
+						}
+						add(tpl, 1, 2, 0, cfg, 0, cs)
+					}
+					add(tpl, 1, 2, 1, 3, 255, 1000)
+				}
+				add(0, 1, 0, 0, 3, -1, 1000)
+				add(2, 0, 0, 1, 3, 0, 1000)
+				add(3, 3, 5, 0, 2, 0, 1000)
+				add(4, 3, 0, 0, 1, 0, 1000)
+				return js
+			}
+			for tpl := 0; tpl <= 7; tpl++ {
+				for _, lp := range [][2]int{{0, 0}, {1, 2}, {3, 5}} {
+					for idv := 0; idv <= 1; idv++ {
+						for _, cfg := range []int{0, 2, 1, 3, 5, 7, 3 | 8, 7 | 8, 3 | 16, 0 | 16, 2 | 8} {
+							for _, cs := range []int{1, 60, 100000} {
+								if cfg&1 == 0 && cs != 1 {
+									continue
+								}
+								add(tpl, lp[0], lp[1], idv, cfg, -1, cs)
+							}
+						}
+					}
+				}
+			}
+			return js
+		},
+		bounds: map[string]any{
+			"quick":    map[string]any{"templates": "T0-T7 (T1,T5,T6,T7 across 8 option sets; T0,T2,T3,T4 once)", "string_len": "0,1,3", "payload_len": "0..6", "messages": "<=3", "channels": "<=2", "symbolic": "every byte of every string/payload, sequence, log/publish/create times, lexer validate flag; Skip* flags symbolic for T0"},
+			"thorough": map[string]any{"templates": "T0-T7", "string_len": "0,1,3", "payload_len": "0,2,5(+1)", "ids": "{1,2} and {65535,0}", "options": "chunked x crc x xor-codec x skipMagic x overrideLibrary (11 combos) x chunk size {1,60,100000}; all 8 Skip* flags symbolic", "symbolic": "as quick"},
+		},
+		outside:     outsideCommon,
+		assumptions: append([]string{"while known finding C04-K1 is listed: no message log time equals 2^64-1"}, commonAssumptions...),
+	}
+}
+
+func init() {
+	checkTable["C02"] = &checkSpec{
+		needEnd: true,
+		jobs: func(tier string) []*Job {
+			var js []*Job
+			add := func(tpl, ln, pn, cfg, skip, cs, ord int) {
+				js = append(js, &Job{Module: "mcap", Harness: "VC02Index", Params: P("tpl", tpl, "ln", ln, "pn", pn, "cfg", cfg, "skip", skip, "cs", cs, "ord", ord), TimeoutS: 900})
+			}
+			if tier == "quick" {
+				for _, tpl := range []int{5, 6} {
+					for ord := 0; ord <= 3; ord++ {
+						add(tpl, 1, 2, 3, 1000+(1|8|64), 1, ord)  // one chunk per message
+						add(tpl, 1, 2, 3, 1000+(1|4|8), 1000, ord) // one chunk
+					}
+					add(tpl, 1, 2, 2, 1000+(16|32|128), 1000, 0) // unchunked
+				}
+				add(7, 1, 2, 3, 1000+(16|32|2), 1000, 0)
+				add(1, 1, 2, 1, 1000+(1|8|64|4), 1000, 0)
+				return js
+			}
+			for _, tpl := range []int{0, 1, 2, 5, 6, 7} {
+				for ord := 0; ord <= 3; ord++ {
+					for _, c := range [][2]int{{3, 1}, {3, 1000}, {1, 60}, {2, 1}, {0, 1}} {
+						add(tpl, 1, 2, c[0], -1, c[1], ord)
+					}
+				}
+			}
+			return js
+		},
+		bounds: map[string]any{
+			"quick":    map[string]any{"templates": "T1,T5,T6,T7", "options": "chunked/unchunked, chunk size 1 and 1000, 3-4 Skip* flags symbolic per job (the index-relevant ones)", "orders": "default, FileOrder, LogTimeOrder, ReverseLogTimeOrder", "symbolic": "all field values, listed flags"},
+			"thorough": map[string]any{"templates": "T0,T1,T2,T5,T6,T7", "options": "5 base configurations x all 8 Skip* flags symbolic (256 combinations each)", "orders": "all 4"},
+		},
+		outside:     outsideCommon,
+		assumptions: append([]string{"while known finding C04-K1 is listed: no message log time equals 2^64-1"}, commonAssumptions...),
+	}
+	checkTable["C03"] = &checkSpec{
+		needEnd: true,
+		jobs: func(tier string) []*Job {
+			var js []*Job
+			add := func(n, per, rev int) {
+				js = append(js, &Job{Module: "mcap", Harness: "VC03Order", Params: P("n", n, "per", per, "rev", rev), TimeoutS: 1800})
+			}
+			for rev := 0; rev <= 1; rev++ {
+				add(3, 1, rev)
+				add(4, 2, rev)
+				if tier == "thorough" {
+					add(4, 1, rev)
+					add(5, 2, rev)
+					add(5, 3, rev)
+					add(6, 2, rev)
+					add(6, 3, rev)
+				}
+			}
+			return js
+		},
+		bounds: map[string]any{
+			"quick":    map[string]any{"files": "3 messages in 3 chunks; 4 messages in 3 chunks (1+2+1)", "channels": 2, "symbolic": "every log time (full 64 bit), payload bytes", "reads": "each order twice"},
+			"thorough": map[string]any{"files": "up to 6 messages, chunk partitions 1/2/3 per chunk", "channels": 2, "symbolic": "every log time (full 64 bit)"},
+		},
+		outside:     append([]string{"more than 6 messages / 4 chunks", "combination with time windows and topic filters is decided in C04"}, outsideCommon...),
+		assumptions: append([]string{"while known finding C04-K1 is listed: no message log time equals 2^64-1"}, commonAssumptions...),
+	}
+}
